@@ -12,15 +12,15 @@ Lemma known_os_nonempty : known known_os [] = false.
 Proof. reflexivity. Qed.
 Lemma known_arch_nonempty : known known_arch [] = false.
 Proof. reflexivity. Qed.
-Lemma known_os_tagchars : forallb (forallb tag_char) known_os = true.
+Lemma known_os_tagchars : forallb tag_chars known_os = true.
 Proof. vm_compute. reflexivity. Qed.
-Lemma known_arch_tagchars : forallb (forallb tag_char) known_arch = true.
+Lemma known_arch_tagchars : forallb tag_chars known_arch = true.
 Proof. vm_compute. reflexivity. Qed.
 Lemma test_word_no_us : ~ In US test_word.
 Proof. apply mem_byte_false. reflexivity. Qed.
 Lemma ignore_not_linux : bytes_eqb ignore linux = false.
 Proof. reflexivity. Qed.
-Lemma bang_not_tag_char : tag_char BANG = false.
+Lemma bang_not_tag_chars r : tag_chars (BANG :: r) = false.
 Proof. reflexivity. Qed.
 
 (* ------------------------------------------------------------------ *)
@@ -32,7 +32,7 @@ Lemma existsb_eq {A} (f g : A -> bool) l : (forall x, f x = g x) -> existsb f l 
 Proof. intros H. induction l as [|x l IH]; [reflexivity|]. cbn. now rewrite H, IH. Qed.
 
 Lemma known_tagchars tab x :
-  forallb (forallb tag_char) tab = true -> known tab x = true -> forallb tag_char x = true.
+  forallb tag_chars tab = true -> known tab x = true -> tag_chars x = true.
 Proof.
   intros Hall Hk. unfold known in Hk. apply existsb_exists in Hk. destruct Hk as [y [Hin Heq]].
   apply bytes_eqb_eq in Heq. subst y. rewrite forallb_forall in Hall. now apply Hall.
@@ -42,28 +42,28 @@ Qed.
 (* terms and options                                                   *)
 
 Lemma match_tag_true name tags : name <> [] ->
-  match_tag name tags true = forallb tag_char name && (wild tags name || selects tags name).
+  match_tag name tags true = tag_chars name && (wild tags name || selects tags name).
 Proof.
   intros Hne. unfold match_tag, wild, selects. destruct name as [|b r]; [contradiction|].
   cbn [is_nil negb].
-  destruct (forallb tag_char (b :: r)), (tags star), (bytes_eqb (b :: r) ignore),
+  destruct (tag_chars (b :: r)), (tags star), (bytes_eqb (b :: r) ignore),
     (bytes_eqb (b :: r) linux), (tags (b :: r)), (tags android); reflexivity.
 Qed.
 
 Lemma match_tag_false name tags : name <> [] ->
-  match_tag name tags false = forallb tag_char name && (wild tags name || negb (selects tags name)).
+  match_tag name tags false = tag_chars name && (wild tags name || negb (selects tags name)).
 Proof.
   intros Hne. unfold match_tag, wild, selects. destruct name as [|b r]; [contradiction|].
   cbn [is_nil negb].
-  destruct (forallb tag_char (b :: r)), (tags star), (bytes_eqb (b :: r) ignore),
+  destruct (tag_chars (b :: r)), (tags star), (bytes_eqb (b :: r) ignore),
     (bytes_eqb (b :: r) linux), (tags (b :: r)), (tags android); reflexivity.
 Qed.
 
 Lemma match_tag_nostar name tags : tags star = false ->
-  match_tag name tags true = forallb tag_char name && selects tags name.
+  match_tag name tags true = tag_chars name && selects tags name.
 Proof.
   intros Hs. unfold match_tag, selects. rewrite Hs. cbn [andb].
-  destruct (forallb tag_char name), (bytes_eqb name linux), (tags name), (tags android); reflexivity.
+  destruct (tag_chars name), (bytes_eqb name linux), (tags name), (tags android); reflexivity.
 Qed.
 
 Lemma match_term_spec t tags : match_term t tags = term_ok tags t.
@@ -75,8 +75,8 @@ Proof.
     destruct r as [|c r'].
     + reflexivity.
     + destruct (beq BANG c) eqn:Ec.
-      * apply beq_eq in Ec. subst c. cbn [andb]. unfold wf_tag. cbn [is_nil negb forallb].
-        rewrite bang_not_tag_char. reflexivity.
+      * apply beq_eq in Ec. subst c. cbn [andb]. unfold wf_tag. cbn [is_nil negb].
+        rewrite bang_not_tag_chars. reflexivity.
       * cbn [andb]. cbn [length skipn]. change (1 <? S (S (length r'))) with true. cbn [andb].
         rewrite match_tag_false by discriminate. unfold wf_tag. reflexivity.
   - cbn [andb]. rewrite match_tag_true by discriminate. unfold wf_tag. reflexivity.
@@ -392,7 +392,7 @@ Proof.
 Qed.
 
 Lemma known_match_tag tab t tags :
-  forallb (forallb tag_char) tab = true -> known tab t = true -> tags star = false ->
+  forallb tag_chars tab = true -> known tab t = true -> tags star = false ->
   match_tag t tags true = selects tags t.
 Proof.
   intros Hall Hk Hs. rewrite match_tag_nostar by exact Hs.
@@ -450,7 +450,7 @@ Proof.
     + apply ends1_iff in E1. destruct E1 as [ls [Hne Hl]]. rewrite Hl, rev_app_distr. cbn [rev app].
       destruct (rev ls) as [|o tl] eqn:Erl.
       { exfalso. apply Hne. rewrite <- (rev_involutive ls), Erl. reflexivity. }
-      assert (Mt : forall tab, forallb (forallb tag_char) tab = true -> known tab t = true ->
+      assert (Mt : forall tab, forallb tag_chars tab = true -> known tab t = true ->
                                match_tag t tags true = false).
       { intros tab Hall Hkt. now rewrite (known_match_tag _ _ _ Hall Hkt Hs). }
       destruct (known known_os o && known known_arch t) eqn:Eoa.
